@@ -1,6 +1,7 @@
 import Cose.Driver.ParseVal
 import Cose.Go.CoseMap
 import Cose.Cwt.Validator
+import Cose.Cwt.View
 /-! Line-protocol ops for the CWT validator (C18). -/
 namespace Cose.Driver.Cwt
 open Cose.Driver Cose.Cwt Cose.Spec.Rfc8392
@@ -10,18 +11,14 @@ def parseTime (t : String) : Option TimeClaim :=
   if t == "a" then some .absent
   else match parseScalar t with
     | none => none
-    | some v => match Cose.Go.getUint64 (some v) with
-      | .ok n => some (.secs n.toNat)
-      | _ => some .invalid
+    | some v => some (timeView (some v))
 
 /-- what `ValidateMap` sees through `GetString` -/
 def parseText (t : String) : Option TextClaim :=
   if t == "a" then some .absent
   else match parseScalar t with
     | none => none
-    | some v => match Cose.Go.getString (some v) with
-      | .ok s => some (.text (strOfBytes s))
-      | _ => some .invalid
+    | some v => some (textView (some v))
 
 def rejectName : Reject → String
   | .noExp => "noExp" | .badExp => "badExp" | .expired => "expired" | .badNbf => "badNbf"
